@@ -94,7 +94,9 @@ pub fn run(tier: &Tier) -> i32 {
         work.push((s, true));
     }
     // the last pair aliases: DS:x and ES:x+0x100 are the same byte
-    let segs: [(u16, u16); 5] = [(0, 0), (0x1000, 0x2000), (0xF000, 0xFFFF), (0xFFFF, 0x0001), (0x0010, 0x0000)];
+    // the 6th pair has segment bits that overlap the bits of the pointers used below (seg*16 + off is not seg*16 | off);
+    // the 7th puts source and destination in the last paragraph, for overlaps across the end of memory
+    let segs: [(u16, u16); 7] = [(0, 0), (0x1000, 0x2000), (0xF000, 0xFFFF), (0xFFFF, 0x0001), (0x0010, 0x0000), (0x0123, 0x0ABC), (0xFFFF, 0xFFFF)];
     work.par_iter().for_each(|((rp, op, w), upper)| {
         with_worker(|wk| {
             let i = Instr::Str(*rp, *op, *w);
@@ -128,7 +130,7 @@ pub fn run(tier: &Tier) -> i32 {
             }
             // (SI, DI): apart, overlapping forward, overlapping backward, crossing 0xFFFF
             let ptrs: Vec<(u16, u16)> = if op.compares() {
-                vec![(0x0100, 0x2000), (0xFFFA, 0x7FFD)]
+                vec![(0x0100, 0x2000), (0xFFFA, 0x7FFD), (0x0456, 0x0789), (0x000E, 0x0012)]
             } else {
                 // apart; overlapping by every small distance in both directions (a word copied onto itself
                 // shifted by one byte reads its high byte after the low byte was stored); identical; crossing 0xFFFF
@@ -146,6 +148,11 @@ pub fn run(tier: &Tier) -> i32 {
                     // with the aliasing segment pair these are one byte apart physically
                     (0x0000, 0x0101),
                     (0x0001, 0x0100),
+                    // with the last-paragraph pair: elements that wrap past the end of memory, one byte apart
+                    (0x000E, 0x000F),
+                    (0x000F, 0x0010),
+                    (0x000F, 0x000E),
+                    (0x0456, 0x0789),
                 ]
             };
             for df in [false, true] {
@@ -300,8 +307,8 @@ pub fn run(tier: &Tier) -> i32 {
     };
     let mut cov = Coverage::default();
     cov.exhaustive = true;
-    cov.rule = format!("all 32 string/REP spellings of syntax.md x both cases, assembled by the real Preprocessor; the emitted line is re-issued to the real Interpreter exactly as the driver does until it stops answering REPEAT; for every CX in 0..={} (plus spot values), DF in {{0,1}}, 5 (DS,ES) pairs incl. wrap at 1 MB and aliasing segments, 2-12 (SI,DI) placements incl. overlap by 0,1,2,3 bytes in both directions and crossing 0xFFFF, and for CMPS/SCAS every position of the first terminating element (and none) x initial ZF; final state (registers, flags, whole memory) compared with the whole-instruction reference, and every REPEAT answer must decrement CX by exactly one; 8 programs through the CLI binary Histories: every sequence of up to 3 (thorough 4) instructions over the property's instructions plus a 21-instruction context alphabet (register, memory, stack and flag traffic, data-label operands, DS/ES loaded by pop and by mov), with at least one of the property's instructions, as ONE program on ONE machine and ONE Interpreter object from 3 initial states, compared with the reference after every step (whole memory on every 16th run)", maxcx);
-    cov.bounds = json!({"max_cx_exhaustive": maxcx, "segment_pairs": 5, "sequence_depth": seq_depth, "sequences": seq.sequences, "sequence_steps": seq.steps, "sequence_whole_memory_audits": seq.audits, "tier": tier.name()});
+    cov.rule = format!("all 32 string/REP spellings of syntax.md x both cases, assembled by the real Preprocessor; the emitted line is re-issued to the real Interpreter exactly as the driver does until it stops answering REPEAT; for every CX in 0..={} (plus spot values), DF in {{0,1}}, 7 (DS,ES) pairs incl. wrap at 1 MB, aliasing segments, segments whose bits overlap the pointer bits, both in the last paragraph, 4-16 (SI,DI) placements incl. overlap by 0,1,2,3 bytes in both directions and crossing 0xFFFF, and for CMPS/SCAS every position of the first terminating element (and none) x initial ZF; final state (registers, flags, whole memory) compared with the whole-instruction reference, and every REPEAT answer must decrement CX by exactly one; 8 programs through the CLI binary Histories: every sequence of up to 3 (thorough 4) instructions over the property's instructions plus a 21-instruction context alphabet (register, memory, stack and flag traffic, data-label operands, DS/ES loaded by pop and by mov), with at least one of the property's instructions, as ONE program on ONE machine and ONE Interpreter object from 3 initial states, compared with the reference after every step (whole memory on every 16th run)", maxcx);
+    cov.bounds = json!({"max_cx_exhaustive": maxcx, "segment_pairs": 7, "sequence_depth": seq_depth, "sequences": seq.sequences, "sequence_steps": seq.steps, "sequence_whole_memory_audits": seq.audits, "tier": tier.name()});
     cov.assumptions = common_assumptions();
     cov.cli_runs = CLI_RUNS.load(Ordering::Relaxed);
     let cov = finish_cov(c, cov);
